@@ -315,4 +315,98 @@ example : ∃ p s, mk 16 4 true 24904 20000 1 false = some (p, s) ∧ validB p s
   refine ⟨_, _, rfl, ?_⟩
   decide
 
+/-! ### The unwrappers as an Abaco channel group wires them -/
+
+theorem mk_abaco_enabled (B : Int) (reset sign : Int) (inv : Bool) (hra : 0 < reset) :
+    mk 16 4 true B reset sign inv =
+      some ({ drop := 4, enable := true, invert := inv, signMask := 65535, twoPi := 4096,
+              upper := toInt16 (Int.tmod (toInt16 (B >>> 4)) 4096 + 2048),
+              lower := toInt16 (Int.tmod (toInt16 (B >>> 4)) 4096 - 2048),
+              resetAfter := reset, resetOffset := if sign > 0 then 4096 else 57344 },
+            { lastVal := 0, offset := if sign > 0 then 4096 else 57344, resetCount := 0 }) := by
+  unfold mk
+  have h1 : ¬ reset ≤ 0 := by omega
+  have e1 : toInt16 ((2 : Int) ^ (16 - 4 - 1)) = 2048 := by decide
+  have e3 : shl16 (16 - 4) = 4096 := by decide
+  have e4 : toInt16 4096 = 4096 := by decide
+  simp only [e1, e3, h1]
+  simp [e4]
+
+/-- **the unwrappers a channel group builds**: for every option set that enables unwrapping (the
+options `isvalid` accepts: `Unwrap → RescaleRaw`; a positive reset interval), every group position
+and every channel of the group, `NewAbacoGroup` builds valid parameters and a good initial state:
+quantum 2^12, limits `bias ± 2^11` with the bias 0 or ±0.38 ϕ0 by `Bias` and the pulse sign, and the
+channel is inverted iff its channel NUMBER `first + i` is listed in `InvertChan`. -/
+theorem group_params_valid (o : GOpts) (first i : Nat) (hu : o.unwrap = true) (hr : o.rescale = true)
+    (hra : 0 < o.reset) :
+    ∃ p s b, groupMk o first i = some (p, s) ∧ Valid p b 2048 ∧ Good p s ∧
+      p.invert = o.inv.contains (first + i) ∧ p.drop = 4 ∧ p.enable = true ∧ p.signMask = 65535 ∧
+      p.twoPi = 4096 ∧
+      (b = if o.bias then (if o.sign < 0 then -1557 else 1556) else 0) := by
+  unfold groupMk
+  rw [hu, hr, if_pos rfl, mk_abaco_enabled _ _ _ _ hra]
+  refine ⟨_, _, _, rfl, ?_, ?_, rfl, rfl, rfl, rfl, rfl, rfl⟩
+  · unfold abacoBias
+    constructor <;> (try simp only) <;> (try split) <;> (try split) <;> (try decide) <;> (try omega)
+  · constructor <;> simp only <;> (try split) <;> (try omega) <;> (try decide)
+
+/-- any number of calls: with unwrapping enabled the outputs of the calls, concatenated, are the
+outputs of one call on the concatenated input (`C12_split_independent` for every split) -/
+theorem runCalls_flatten (p : Params) (hen : p.enable = true) (hd : p.drop ≠ 0) :
+    ∀ (cs : List (List Nat)) (s : St),
+      (runCalls p s cs).2.flatten = (runV p s (cs.flatten.map (pre p))).2
+  | [], s => by simp [runCalls, runV]
+  | c :: cs, s => by
+    simp only [runCalls, List.flatten_cons, List.map_append, runV_append]
+    rw [runCalls_flatten p hen hd cs]
+    unfold unwrapCall
+    simp [hen, hd]
+
+/-- **C12 for a channel group** (`NewAbacoGroup` + `demuxData`, any number of calls, any packet
+payloads): with unwrapping enabled, every output sample of every channel equals that channel's input
+sample — inverted iff the channel's number is listed, masked and with 4 bits dropped — plus a whole
+number of quanta (2^12). -/
+theorem C12_group_output_mod_quantum (o : GOpts) (first nch i : Nat) (wide : Bool) (calls : List (List Int))
+    (hu : o.unwrap = true) (hr : o.rescale = true) (hra : 0 < o.reset) :
+    ∃ outs, groupChan o first nch i wide calls = some outs ∧
+      let ins := (calls.map (demuxChan nch i wide)).flatten
+      outs.flatten.length = ins.length ∧
+      ∀ k (hk : k < ins.length) (hk' : k < outs.flatten.length),
+        outs.flatten[k] % 4096 =
+          ((((if o.inv.contains (first + i) then ins[k] ^^^ 65535 else ins[k]) &&& 65535) >>> 4)) % 4096 := by
+  obtain ⟨p, s, b, hmk, hv, hg, hinv, hdrop, hen, hmask, htp, _⟩ := group_params_valid o first i hu hr hra
+  refine ⟨_, by unfold groupChan; rw [hmk]; rfl, ?_⟩
+  simp only
+  have hd : p.drop ≠ 0 := by omega
+  rw [runCalls_flatten p hen hd]
+  have hall : AllLt p.twoPi ((calls.map (demuxChan nch i wide)).flatten.map (pre p)) := by
+    intro v hv'
+    obtain ⟨raw, _, rfl⟩ := List.mem_map.mp hv'
+    exact pre_lt p 16 (by omega) (by rw [hmask]) (by rw [htp, hdrop]) raw
+  have hmain := C12_output_mod_quantum p b 2048 hv _ s hg hall
+  have hlen : (runV p s ((calls.map (demuxChan nch i wide)).flatten.map (pre p))).2.length =
+      (calls.map (demuxChan nch i wide)).flatten.length := by
+    have : ∀ (vs : List Nat) (s : St), (runV p s vs).2.length = vs.length := by
+      intro vs
+      induction vs with
+      | nil => intro s; simp [runV]
+      | cons v vs ih => intro s; simp [runV, ih]
+    rw [this, List.length_map]
+  refine ⟨hlen, ?_⟩
+  intro k hk hk'
+  obtain ⟨hj, heq⟩ := hmain k (by rw [List.length_map]; exact hk)
+  rw [htp] at heq
+  rw [heq]
+  simp only [List.getElem_map, pre, hinv, hmask, hdrop]
+
+/-- Non-vacuity: a group that does not start at channel 0, with one listed channel number inside it
+and one listed number that is only an index within the group; the hypotheses hold and channel number
+9 (index 1) is inverted while index 1 as a number (channel 1) is not in the group at all. -/
+example :
+    let o : GOpts := { rescale := true, unwrap := true, bias := true, reset := 3, sign := -1, inv := [9, 0] }
+    o.unwrap = true ∧ o.rescale = true ∧ 0 < o.reset ∧
+    groupChan o 8 2 1 false [[100, 200, 300, 400], [500, 600]] = some [[57331, 57318], [57306]] ∧
+    groupChan o 8 2 0 false [[100, 200, 300, 400], [500, 600]] = some [[57350, 57362], [57375]] := by
+  decide
+
 end DastardV.C12
